@@ -40,6 +40,13 @@ fn main() {
     let threads: usize = arg_val(&args, "--threads").and_then(|s| s.parse().ok()).unwrap_or_else(|| if cfg!(miri) { 1 } else { std::thread::available_parallelism().map(|n| n.get()).unwrap_or(4) });
     let force_skip = args.iter().any(|a| a == "--force-skip-fast") || cfg!(miri);
     let no_skip = args.iter().any(|a| a == "--no-skip-fast");
+    if args.iter().any(|a| a == "--print-index") {
+        sink::set_print_index(true);
+    }
+    sink::install_death_note(args.get(2).map(|s| s.as_str()).unwrap_or(""), arg_val(&args, "--death-note"));
+    if args.iter().any(|a| a == "--tiny") {
+        gen::set_tiny(true);
+    }
     if args.iter().any(|a| a == "--exact-end") {
         sink::set_tail_canary(false);
     }
@@ -138,9 +145,11 @@ fn main() {
             let prop = args.get(2).cloned().unwrap_or_default();
             let run: u64 = arg_val(&args, "--run").and_then(|s| s.parse().ok()).unwrap_or(0);
             let propc = props::CLAIMED.iter().copied().find(|p| *p == prop).unwrap_or("C02");
-            batch::set_skip_fast_hook(force_skip);
-            let (case, o) = batch::run_one(propc, seed, run, force_skip);
-            let j = serde_json::json!({"run_index": run, "seed": seed, "case": case.to_json(), "calls": o.calls, "events": o.events,
+            let skip = force_skip || (!no_skip && rng::mix64(seed ^ run.wrapping_mul(0xD6E8_FEB8_6659_FD93)) % 6 == 0);
+            batch::set_skip_fast_hook(skip);
+            sink::set_log_calls(args.iter().any(|a| a == "--calls"));
+            let (case, o) = batch::run_one(propc, seed, run, skip);
+            let j = serde_json::json!({"run_index": run, "seed": seed, "case": case.to_json(), "calls": o.calls, "events": o.events, "call_log": sink::take_call_log(),
                 "transcript": format!("{:016x}", o.transcript), "finished": o.finished, "aborted": o.aborted,
                 "viols": o.viols.iter().map(|v| format!("{}/{}: {}", v.prop, v.oracle, v.detail)).collect::<Vec<_>>()});
             println!("{}", serde_json::to_string_pretty(&j).unwrap());
